@@ -133,8 +133,12 @@ theorem compiled_eq_tree_partial (hash : Bytes → Nat) (sat : Nat → Bytes →
       · have : treeOf (build noRoute script) req.method = none := by simp [treeOf, hm]
         rw [this]
 
-/-- **C11, version tree.** Inside a version tree nothing depends on route compilation or on the bloom
-configuration — no guard on the route set at all. -/
+/-- **C11, version tree.** Inside a version tree the answer does not depend on the options: `serveVersioned`
+never reads `o.compiled` (as serve.go: the version cache is used whatever the flag says), so what is proved is
+independence of the bloom configuration (size, number of hash functions) for every placement of `Warmup()`.
+No recorded class is needed (`order`, `overwrite`), but the route set is assumed `normal` (vocabulary, declared
+constraint names) and the hash separating the keys in play. That the version cache answers like the version
+tree's walk is not a theorem (the main-tree analogue is `stage1_eq` / `stage3_eq`): correspondence only. -/
 theorem versioned_eq (hash : Bytes → Nat) (sat : Nat → Bytes → Bool) (o o' : Opts) (hw : o.warmAt = o'.warmAt) (noRoute : Bool)
     (script : List Reg) (R : List Route) (hR : specRoutes script = some R) (hN : normal R = true)
     (hstd : ∀ g ∈ script, g.method ∈ stdMethods) (req : Req) (hinj : InjOn hash (hashKeys R req)) :
